@@ -19,9 +19,27 @@ def dec_key(k):
     return k
 
 
-def dec_pos(p):
+def dec_pos(p, real=False):
     if isinstance(p, dict) and 'range' in p:
         return range(*p['range'])
+    if isinstance(p, dict) and 'as' in p:
+        # a list of positions handed over in another container; the operation is specified on the positions, whatever holds them
+        # (the model gets the list, the library the container: an iterator / generator / map can be walked once only)
+        items = list(p['items'])
+        if p['as'] == 'keys':
+            items = list(dict.fromkeys(items))      # a dict view holds every position once
+        if not real:
+            return items
+        how = p['as']
+        return iter(items) if how == 'iter' else (x for x in items) if how == 'gen' else map(int, items) if how == 'map' else \
+            tuple(items) if how == 'tuple' else dict.fromkeys(items).keys()
+    return p
+
+
+def other_container(rng, p):
+    """A third of the position lists are handed over as an iterator, a generator, a map, a tuple or a dict view instead."""
+    if isinstance(p, list) and rng.random() < 0.34:
+        return {'as': rng.choice(['iter', 'gen', 'map', 'tuple', 'keys']), 'items': p}
     return p
 
 
@@ -105,11 +123,12 @@ def gen_step(rng, L, ops=OPS, max_len=20000):
                         enc_range(range(0, L)), ['tuple', rpos(rng, L, False), rpos(rng, L, False)]])
         if isinstance(p, list) and p and p[0] == 'tuple':
             p = p[1:]
+        p = other_container(rng, p)
         return op, [rng.choice([0, 1, True, False, 5, '']), p]
     if op == 'invert':
         p = rng.choice([None, rpos(rng, L), [rpos(rng, L, False) for _ in range(3)], [rpos(rng, L) for _ in range(3)],
                         enc_range(range(0, L, 2)), enc_range(range(L - 1, -1, -2))])
-        return op, [p]
+        return op, [other_container(rng, p)]
     if op in ('ilshift', 'irshift'):
         return op, [rng.choice([0, 1, 2, 7, 8, L - 1, L, L + 1, -1, 1000, 10 ** 6])]
     if op == 'imul':
@@ -182,9 +201,9 @@ def do(s, op, a, retained=None):
     if op == 'ror':
         return s.ror(a[0], a[1], a[2])
     if op == 'set':
-        return s.set(a[0], dec_pos(a[1]))
+        return s.set(a[0], dec_pos(a[1], True))
     if op == 'invert':
-        return s.invert(dec_pos(a[0]))
+        return s.invert(dec_pos(a[0], True))
     if op in ('ilshift', 'irshift', 'imul'):
         t = s
         if op == 'ilshift':
@@ -290,6 +309,9 @@ def input_class(m, op, a, ma, lsb0=False):
             parts.append('int')
         else:
             parts.append('iterable')
+            raw = a[-1]
+            if isinstance(raw, dict) and 'as' in raw:
+                parts.append('one-shot' if raw['as'] in ('iter', 'gen', 'map') else raw['as'])
     if op in ('setitem_int', 'setitem_bits', 'delitem'):
         k = ma[0]
         if isinstance(k, slice):
